@@ -564,5 +564,7 @@ def check(ctx):
            "other local fields written: %s" % other, ss.loc())
 
     compiled_mode_rules(ctx, "C06.h")
+    from . import adaptors
+    adaptors.analyze(ctx, ("C02.j",))        # builders, constructors, mode tables: every configured mode / transition is kept
     from .common import cache_foundation
     cache_foundation(ctx)
